@@ -60,11 +60,23 @@ func NewContextForSecuredDevice(b SecuredDevice) Context {
 }
 
 func (ctx *context) GetKey(c net.Conn) interface{} {
-	return c.RemoteAddr().String()
+	return connectionKey(c.RemoteAddr().String(), c.LocalAddr())
 }
 
 func (ctx *context) GetConnectionKey(r *http.Request) interface{} {
-	return r.RemoteAddr
+	local, _ := r.Context().Value(http.LocalAddrContextKey).(net.Addr)
+	return connectionKey(r.RemoteAddr, local)
+}
+
+// connectionKey identifies a connection by its remote and its local address. The remote
+// address alone is not unique: the accessory listens on all of its addresses, and two live
+// connections to two of them may come from the same remote ip:port. Whoever opened the second
+// one would share the session (and the verification) of the first.
+func connectionKey(remote string, local net.Addr) string {
+	if local == nil {
+		return remote
+	}
+	return remote + " " + local.String()
 }
 
 func (ctx *context) Set(key, val interface{}) {
